@@ -90,7 +90,15 @@ Qed.
 Lemma json_wf_arr l : json_wf (JArr l) -> forall x, In x l -> json_wf x.
 Proof. unfold json_wf. simpl. intros H x Hin. rewrite forallb_forall in H. auto. Qed.
 Lemma json_finite_obj o : json_finite (JObj o) -> forall k x, In (k, x) o -> json_finite x.
-Proof. unfold json_finite. simpl. intros H k x Hin. rewrite forallb_forall in H. apply (H (k, x) Hin). Qed.
+Proof.
+  unfold json_finite. simpl. intros H k x Hin. rewrite forallb_forall in H. specialize (H (k, x) Hin).
+  apply andb_true_iff in H. exact (proj1 H).
+Qed.
+Lemma json_finite_ratio o : json_finite (JObj o) -> forall x, In (f_allocation_ratio, x) o -> ratio_storable x = true.
+Proof.
+  unfold json_finite. simpl. intros H x Hin. rewrite forallb_forall in H. specialize (H (f_allocation_ratio, x) Hin).
+  apply andb_true_iff in H. destruct H as [_ H]. cbn [fst snd] in H. rewrite str_eqb_refl in H. exact H.
+Qed.
 Lemma json_finite_arr l : json_finite (JArr l) -> forall x, In x l -> json_finite x.
 Proof. unfold json_finite. simpl. intros H x Hin. rewrite forallb_forall in H. auto. Qed.
 Lemma json_wf_member k j : json_wf j -> json_wf (member k j).
@@ -352,16 +360,17 @@ Proof.
 Qed.
 Lemma str_shape_valid s f x : str_shape s = true -> valid f s x = true -> exists t, x = JStr t.
 Proof. destruct f; [discriminate|]. destruct s as [k]. simpl. intros. eapply type_str; eauto. Qed.
-Lemma num_ratio_int z : exists r, num_ratio (JInt z) = Some r.
-Proof. destruct z; simpl; eauto. destruct (strip2 p 0). eauto. Qed.
+Lemma num_ratio_int z : ratio_storable (JInt z) = true -> exists r, num_ratio (JInt z) = Some r.
+Proof. intro Hs. unfold num_ratio. rewrite Hs. cbn [negb]. destruct z; eauto. destruct (strip2 p 0). eauto. Qed.
 Lemma num_shape_valid s f x :
-  num_shape s = true -> valid f s x = true -> json_finite x -> exists r, num_ratio x = Some r.
+  num_shape s = true -> valid f s x = true -> json_finite x -> ratio_storable x = true ->
+  exists r, num_ratio x = Some r.
 Proof.
-  destruct f; [discriminate|]. destruct s as [k]. simpl. intros H Hv Hf.
+  destruct f; [discriminate|]. destruct s as [k]. simpl. intros H Hv Hf Hs.
   destruct (k_type_in_valid _ _ _ _ H Hv) as [t [Ht Hty]].
   destruct x; try (destruct Ht as [Ht|[Ht|[]]]; subst t; discriminate).
-  - apply num_ratio_int.
-  - simpl. eauto.
+  - apply num_ratio_int. exact Hs.
+  - unfold num_ratio. rewrite Hs. cbn [negb]. eauto.
 Qed.
 Lemma intnull_shape_valid s f x :
   intnull_shape s = true -> valid f s x = true -> x = JNull \/ exists n, num_int x = Some n.
@@ -419,7 +428,9 @@ Proof.
   assert (exists r, opt_ratio o = Some r) as [r Er].
   { unfold opt_ratio. destruct (assoc f_allocation_ratio o) as [x|] eqn:E; [|eauto].
     destruct (mem_shape_valid _ _ _ _ _ _ H Hv E) as [sr [Hsr Hvr]].
-    eapply num_shape_valid; eauto. eapply json_finite_obj; eauto. apply assoc_In. exact E. }
+    eapply num_shape_valid; eauto.
+    - eapply json_finite_obj; eauto. apply assoc_In. exact E.
+    - eapply json_finite_ratio; eauto. apply assoc_In. exact E. }
   unfold dec_inv, req_int. rewrite Et. cbn [obind]. rewrite Htot. cbn [obind].
   rewrite Ers. cbn [obind]. rewrite Emn. cbn [obind]. rewrite Emx. cbn [obind]. rewrite Est. cbn [obind].
   rewrite Er. cbn [obind]. eexists. split; [reflexivity|]. split; [|reflexivity].
@@ -1325,6 +1336,18 @@ Theorem C15s_inv_post_nan_refuted :
   exists j, json_wf j /\ validate S_inventory__POST_INVENTORY_SCHEMA j = true /\ dec_inv_post tok_rc j = None.
 Proof. exists inv_nan_doc. split; [vm_compute; reflexivity|]. split; [vm_compute; reflexivity|]. reflexivity. Qed.
 
+(* ... and so is a FINITE ratio below the negative of the maximum (-1e308 = -156575653125701 * 2^976): no "minimum".
+   Found by the boundary stream (OverflowError in Inventory.capacity, 500) and rejected since fix 7fca050. *)
+Definition inv_neg_doc : json :=
+  JObj [(f_resource_class, JStr [86; 67; 80; 85]); (f_total, JInt 4);
+        (f_allocation_ratio, JFlt (-156575653125701) 976)].
+Theorem C15s_inv_post_huge_negative_refuted :
+  exists j, json_wf j /\ json_nospecb j = true /\ validate S_inventory__POST_INVENTORY_SCHEMA j = true /\ dec_inv_post tok_rc j = None.
+Proof.
+  exists inv_neg_doc. split; [vm_compute; reflexivity|]. split; [vm_compute; reflexivity|].
+  split; [vm_compute; reflexivity|]. vm_compute. reflexivity.
+Qed.
+
 (* ================================================================== summary *)
 (* Every write body: schema-valid (+ unique keys, finite numbers, tokenizers injective on the identifiers that occur)
    => the request the decode layer builds satisfies req_wf.  For PUT traits the schema lacks uniqueItems
@@ -1548,6 +1571,7 @@ Print Assumptions C15s_inv_set.
 Print Assumptions C15s_inv_post.
 Print Assumptions C15s_inv_put.
 Print Assumptions C15s_inv_post_nan_refuted.
+Print Assumptions C15s_inv_post_huge_negative_refuted.
 Print Assumptions C15s_traits_set.
 Print Assumptions dedupZ_nodupb.
 Print Assumptions C15s_traits_set_refuted.
